@@ -2,6 +2,7 @@
 #![allow(dead_code, unused_imports, unused_variables)]
 mod der;
 mod driver;
+mod gen;
 mod ir;
 mod keys;
 mod props;
@@ -11,7 +12,7 @@ mod sexp;
 
 use rcgen::KeyPair;
 use std::collections::HashMap;
-use std::sync::Mutex;
+use std::sync::{Arc, Mutex};
 
 static LAST_PANIC: Mutex<String> = Mutex::new(String::new());
 
@@ -23,19 +24,19 @@ pub struct Ctx {
 	pub seed: u64,
 	pub thorough: bool,
 	pub rsa_fixture: Vec<u8>,
-	pub keys: HashMap<String, KeyPair>,
-	pub ed_key: KeyPair,
+	pub keys: HashMap<String, Arc<KeyPair>>,
+	pub ed_key: Arc<KeyPair>,
 }
 
 impl Ctx {
 	/// one key per algorithm, created on first use
-	pub fn key(&mut self, alg: &str) -> &KeyPair {
+	pub fn key(&mut self, alg: &str) -> Arc<KeyPair> {
 		if !self.keys.contains_key(alg) {
 			let a = keys::build_algs().into_iter().find(|a| ir::alg_name(a) == alg).unwrap_or_else(|| panic!("algorithm {} not in this build", alg));
 			let k = keys::local_key(a, &self.rsa_fixture);
-			self.keys.insert(alg.to_string(), k);
+			self.keys.insert(alg.to_string(), Arc::new(k));
 		}
-		&self.keys[alg]
+		self.keys[alg].clone()
 	}
 }
 
@@ -67,11 +68,12 @@ fn main() {
 	}
 	let seed: u64 = std::env::var("VERIF_SEED").ok().and_then(|s| s.parse::<i64>().ok()).map(|v| v as u64).unwrap_or(20260929);
 	let rsa_fixture = keys::rsa_pkcs8(2048);
-	let ed_key = keys::local_key(&rcgen::PKCS_ED25519, &rsa_fixture);
+	let ed_key = Arc::new(keys::local_key(&rcgen::PKCS_ED25519, &rsa_fixture));
 	let mut ctx = Ctx { seed, thorough, rsa_fixture, keys: HashMap::new(), ed_key };
 	let result = std::panic::catch_unwind(std::panic::AssertUnwindSafe(|| match prop.as_str() {
 		"C13" => props::c13::run(&mut ctx),
 		"C20" => props::c20::run(&mut ctx),
+		"C01" | "C02" | "C04" | "C05" | "C07" | "C08" | "C09" | "C10" | "C15" => props::suite::run(&mut ctx, &prop),
 		p => panic!("unknown property {}", p),
 	}));
 	match result {
